@@ -26,6 +26,7 @@ type ctx struct {
 	imports  map[string]bool // names of imported packages in this file
 	recv     string          // name of the method receiver
 	conds    bool            // render if-conditions
+	full     bool            // also render loop conditions, ranged-over expressions, switch tags and case lists
 	locals   map[string]bool // local closures whose bodies take part in the protocol
 }
 
@@ -255,6 +256,9 @@ func (c *ctx) stmt(s ast.Stmt) string {
 		if b == "" {
 			return ""
 		}
+		if c.full && s.Cond != nil {
+			return "(For [" + src(s.Cond) + "] {" + b + "})"
+		}
 		return "(For {" + b + "})"
 	case *ast.RangeStmt:
 		b := c.stmts(s.Body.List)
@@ -266,6 +270,9 @@ func (c *ctx) stmt(s ast.Stmt) string {
 			if _, known := c.names[ch.Name]; known {
 				over = " " + c.operand(ch) // ranging over a channel
 			}
+		}
+		if c.full && over == "" {
+			over = " [" + src(s.X) + "]"
 		}
 		return "(Range" + over + " {" + b + "})"
 	case *ast.IfStmt:
@@ -300,10 +307,13 @@ func (c *ctx) stmt(s ast.Stmt) string {
 			cc := cl.(*ast.CaseClause)
 			b := c.stmts(cc.Body)
 			n += len(b)
-			out += "(Case {" + b + "})"
+			out += "(Case" + c.caseList(cc) + " {" + b + "})"
 		}
 		if n == 0 {
 			return ""
+		}
+		if c.full && s.Tag != nil {
+			return "(Switch [" + src(s.Tag) + "] " + out + ")"
 		}
 		return "(Switch " + out + ")"
 	case *ast.TypeSwitchStmt:
@@ -313,7 +323,7 @@ func (c *ctx) stmt(s ast.Stmt) string {
 			cc := cl.(*ast.CaseClause)
 			b := c.stmts(cc.Body)
 			n += len(b)
-			out += "(Case {" + b + "})"
+			out += "(Case" + c.caseList(cc) + " {" + b + "})"
 		}
 		if n == 0 {
 			return ""
@@ -344,9 +354,26 @@ func (c *ctx) stmt(s ast.Stmt) string {
 	return ""
 }
 
+// caseList renders the expressions (or types) of a case clause; "default" for the default clause
+func (c *ctx) caseList(cc *ast.CaseClause) string {
+	if !c.full {
+		return ""
+	}
+	if cc.List == nil {
+		return " [default]"
+	}
+	parts := []string{}
+	for _, e := range cc.List {
+		parts = append(parts, src(e))
+	}
+	return " [" + strings.Join(parts, ", ") + "]"
+}
+
 type target struct {
 	file, recvType, fn string
 	conds              bool
+	suffix             string // distinguishes a second rendering of the same function (with its conditions)
+	full               bool   // loop conditions, ranged-over expressions, switch tags and case lists as well
 }
 
 // writeSet lists, sorted and de-duplicated, the stores of a function that go through something
@@ -460,7 +487,7 @@ func main() {
 	repo, outPath := os.Args[1], os.Args[2]
 	files := map[string]*ast.File{}
 	pkgFuncs := map[string]bool{}
-	for _, name := range []string{"execute.go", "plan.go", "http.go", "cache.go", "gateway.go", "middlewares.go", "merge.go"} {
+	for _, name := range []string{"execute.go", "plan.go", "http.go", "cache.go", "gateway.go", "middlewares.go", "merge.go", "internal.go"} {
 		f, err := parser.ParseFile(fset, filepath.Join(repo, name), nil, 0)
 		if err != nil {
 			fmt.Fprintln(os.Stderr, "parse error:", err)
@@ -474,27 +501,57 @@ func main() {
 		}
 	}
 	targets := []target{
-		{"execute.go", "ParallelExecutor", "Execute", false}, {"execute.go", "", "executeStep", false},
-		{"plan.go", "MinQueriesPlanner", "generatePlans", false}, {"plan.go", "MinQueriesPlanner", "extractSelection", false},
-		{"http.go", "Gateway", "GraphQLHandler", false}, {"http.go", "Gateway", "setResultFunc", false}, {"http.go", "Gateway", "executeRequest", false},
-		{"cache.go", "AutomaticQueryPlanCache", "Retrieve", true},
-		{"gateway.go", "Gateway", "Execute", false},
-		{"execute.go", "", "executorExtractValue", false}, {"execute.go", "", "executorInsertObject", false},
-		{"execute.go", "", "executorFindInsertionPoints", false}, {"middlewares.go", "", "scrubInsertionIDs", false},
+		{"execute.go", "ParallelExecutor", "Execute", false, "", false}, {"execute.go", "", "executeStep", false, "", false},
+		{"plan.go", "MinQueriesPlanner", "generatePlans", false, "", false}, {"plan.go", "MinQueriesPlanner", "extractSelection", false, "", false},
+		{"http.go", "Gateway", "GraphQLHandler", false, "", false}, {"http.go", "Gateway", "setResultFunc", false, "", false}, {"http.go", "Gateway", "executeRequest", false, "", false},
+		{"cache.go", "AutomaticQueryPlanCache", "Retrieve", true, "", false},
+		{"gateway.go", "Gateway", "Execute", false, "", false},
+		{"execute.go", "", "executorExtractValue", false, "", false}, {"execute.go", "", "executorInsertObject", false, "", false},
+		{"execute.go", "", "executorFindInsertionPoints", false, "", false}, {"middlewares.go", "", "scrubInsertionIDs", false, "", false},
 		// the comparisons mergeSchemas makes per kind (C03, C09, C10), conditions included
-		{"merge.go", "", "mergeInterfaces", true}, {"merge.go", "", "mergeObjectTypes", true}, {"merge.go", "", "mergeInputObjects", true},
-		{"merge.go", "", "mergeFieldList", true}, {"merge.go", "", "mergeFields", true}, {"merge.go", "", "mergeEnums", true},
-		{"merge.go", "", "mergeEnumValues", true}, {"merge.go", "", "mergeScalars", true}, {"merge.go", "", "mergeUnions", true},
-		{"merge.go", "", "mergeDirectives", true}, {"merge.go", "", "mergeDirectiveLocations", true},
-		{"merge.go", "", "mergeArgumentDefinitionList", true}, {"merge.go", "", "mergeDirectiveListsEqual", true},
-		{"merge.go", "", "mergeDirectiveEqual", true}, {"merge.go", "", "mergeInterfaceNames", true},
-		{"merge.go", "", "mergeStringSliceEquivalent", true}, {"merge.go", "", "mergeTypesEqual", true}, {"merge.go", "", "mergeValuesEqual", true},
-		{"merge.go", "", "mergeArgumentListEqual", true}, {"merge.go", "", "mergeArgumentsEqual", true}, {"merge.go", "", "mergeArgumentDefinitions", true},
-		{"merge.go", "", "mergeSchemas", true},
+		{"merge.go", "", "mergeInterfaces", true, "", false}, {"merge.go", "", "mergeObjectTypes", true, "", false}, {"merge.go", "", "mergeInputObjects", true, "", false},
+		{"merge.go", "", "mergeFieldList", true, "", false}, {"merge.go", "", "mergeFields", true, "", false}, {"merge.go", "", "mergeEnums", true, "", false},
+		{"merge.go", "", "mergeEnumValues", true, "", false}, {"merge.go", "", "mergeScalars", true, "", false}, {"merge.go", "", "mergeUnions", true, "", false},
+		{"merge.go", "", "mergeDirectives", true, "", false}, {"merge.go", "", "mergeDirectiveLocations", true, "", false},
+		{"merge.go", "", "mergeArgumentDefinitionList", true, "", false}, {"merge.go", "", "mergeDirectiveListsEqual", true, "", false},
+		{"merge.go", "", "mergeDirectiveEqual", true, "", false}, {"merge.go", "", "mergeInterfaceNames", true, "", false},
+		{"merge.go", "", "mergeStringSliceEquivalent", true, "", false}, {"merge.go", "", "mergeTypesEqual", true, "", false}, {"merge.go", "", "mergeValuesEqual", true, "", false},
+		{"merge.go", "", "mergeArgumentListEqual", true, "", false}, {"merge.go", "", "mergeArgumentsEqual", true, "", false}, {"merge.go", "", "mergeArgumentDefinitions", true, "", false},
+		{"merge.go", "", "mergeSchemas", true, "", false},
 		// small decision functions, conditions included: the routing table (C03), the chooser (C20), the lookup by operation name (C17)
-		{"gateway.go", "", "fieldURLs", true}, {"gateway.go", "FieldURLMap", "URLFor", true}, {"gateway.go", "FieldURLMap", "Concat", true},
-		{"gateway.go", "FieldURLMap", "RegisterURL", true}, {"gateway.go", "FieldURLMap", "keyFor", true},
-		{"plan.go", "MinQueriesPlanner", "selectLocation", true}, {"plan.go", "QueryPlanList", "ForOperation", true},
+		{"gateway.go", "", "fieldURLs", true, "", false}, {"gateway.go", "FieldURLMap", "URLFor", true, "", false}, {"gateway.go", "FieldURLMap", "Concat", true, "", false},
+		{"gateway.go", "FieldURLMap", "RegisterURL", true, "", false}, {"gateway.go", "FieldURLMap", "keyFor", true, "", false},
+		{"plan.go", "MinQueriesPlanner", "selectLocation", true, "", false}, {"plan.go", "QueryPlanList", "ForOperation", true, "", false},
+		// the functions the remaining models were written from, conditions included (the suffix marks a
+		// second rendering of a function whose synchronisation skeleton is listed above):
+		// planner (C01, C02, C04, C08, C13)
+		{"plan.go", "MinQueriesPlanner", "groupSelectionSet", true, "", true}, {"plan.go", "MinQueriesPlanner", "wrapSelectionSet", true, "", true},
+		{"plan.go", "MinQueriesPlanner", "extractSelection", true, "_cond", true}, {"plan.go", "MinQueriesPlanner", "generatePlans", true, "_cond", true},
+		{"plan.go", "", "plannerBuildQuery", true, "", true}, {"plan.go", "MinQueriesPlanner", "generateScrubFields", true, "", true},
+		{"plan.go", "MinQueriesPlanner", "generateScrubFieldsWalk", true, "", true}, {"plan.go", "", "containsPath", true, "", true},
+		{"plan.go", "MinQueriesPlanner", "Plan", true, "", true},
+		// executor: one step, insertion points, stitching (C01, C02, C05, C07, C13, C19)
+		{"execute.go", "", "executeOneStep", true, "", true}, {"execute.go", "", "findSelection", true, "", true},
+		{"execute.go", "", "executorFindInsertionPoints", true, "_cond", true}, {"execute.go", "", "isListElement", true, "", true},
+		{"execute.go", "", "executorExtractValue", true, "_cond", true}, {"execute.go", "", "executorInsertObject", true, "_cond", true},
+		{"execute.go", "", "executorMergeObject", true, "", true}, {"execute.go", "", "executorMergeValue", true, "", true},
+		{"execute.go", "", "executorGetPointData", true, "", true}, {"execute.go", "ParallelExecutor", "Execute", true, "_cond", true},
+		{"middlewares.go", "", "scrubInsertionIDs", true, "_cond", true},
+		// the gateway's own Execute and plan lookup (C17, C19)
+		{"gateway.go", "Gateway", "Execute", true, "_cond", true}, {"gateway.go", "Gateway", "GetPlans", true, "", true},
+		// HTTP: parsing, upload map, answers (C15, C16, C18)
+		{"http.go", "", "formatErrors", true, "", true}, {"http.go", "", "formatErrorsWithCode", true, "", true},
+		{"http.go", "Gateway", "GraphQLHandler", true, "_cond", true}, {"http.go", "Gateway", "executeRequest", true, "_cond", true},
+		{"http.go", "", "parseRequest", true, "", true}, {"http.go", "", "parseGetRequest", true, "", true}, {"http.go", "", "parsePostRequest", true, "", true},
+		{"http.go", "", "parseOperations", true, "", true}, {"http.go", "", "injectFile", true, "", true}, {"http.go", "", "emitResponse", true, "", true},
+		// introspection resolvers (C14)
+		{"internal.go", "Gateway", "Query", true, "", true}, {"internal.go", "Gateway", "introspectSchema", true, "", true},
+		{"internal.go", "Gateway", "introspectType", true, "", true}, {"internal.go", "Gateway", "introspectField", true, "", true},
+		{"internal.go", "", "deprecationReason", true, "", true}, {"internal.go", "Gateway", "introspectEnumValue", true, "", true},
+		{"internal.go", "Gateway", "introspectDirective", true, "", true}, {"internal.go", "Gateway", "introspectInputValue", true, "", true},
+		{"internal.go", "Gateway", "introspectInputValueSlice", true, "", true}, {"internal.go", "Gateway", "introspectFieldSlice", true, "", true},
+		{"internal.go", "Gateway", "introspectEnumValueSlice", true, "", true}, {"internal.go", "Gateway", "introspectTypeSlice", true, "", true},
+		{"internal.go", "Gateway", "introspectDirectiveSlice", true, "", true},
 	}
 	var out strings.Builder
 	out.WriteString("(* GENERATED by /verif/translator from the working tree of nautilus/gateway; do not edit. *)\n")
@@ -520,12 +577,12 @@ func main() {
 				}
 				imports[n] = true
 			}
-			c := &ctx{names: map[string]string{}, pkgFuncs: pkgFuncs, imports: imports, recv: rn, conds: t.conds}
+			c := &ctx{names: map[string]string{}, pkgFuncs: pkgFuncs, imports: imports, recv: rn, conds: t.conds, full: t.full}
 			sk := c.stmts(fd.Body.List)
-			fmt.Fprintf(&out, "Definition gen_%s_%s : string :=\n  %s.\n\n", strings.TrimSuffix(t.file, ".go"), t.fn, coqString(sk))
+			fmt.Fprintf(&out, "Definition gen_%s_%s%s : string :=\n  %s.\n\n", strings.TrimSuffix(t.file, ".go"), t.fn, t.suffix, coqString(sk))
 		}
 		if !found {
-			fmt.Fprintf(&out, "Definition gen_%s_%s : string := \"<missing>\".\n\n", strings.TrimSuffix(t.file, ".go"), t.fn)
+			fmt.Fprintf(&out, "Definition gen_%s_%s%s : string := \"<missing>\".\n\n", strings.TrimSuffix(t.file, ".go"), t.fn, t.suffix)
 		}
 	}
 	// write sets of the execution path
